@@ -4,7 +4,7 @@
    the implementation's clock read lies between them, and the model has to agree
    with the implementation at one of the two ends ([either]). *)
 From Coq Require Import List NArith ZArith Bool String.
-From SW Require Export base.Verdict model.Ttl.
+From SW Require Export base.Verdict model.Ttl model.TtlHist.
 Import ListNotations.
 Local Open Scope N_scope.
 
@@ -51,7 +51,20 @@ Record chk := { ck_id : N; ck_s : Z; ck_append : N; ck_minutes : N }.
    its result and the raw content of the store (no expiry applied) after it *)
 Record fstep := { fq_t1 : N; fq_t2 : N; fq_op : fop; fq_res : fres; fq_snap : list (N * fentry) }.
 
+(* ---- histories of uploads of ONE key into one volume (model/TtlHist.v) ----
+   the stored record of the key as the real Needle.ReadData parses it, after a step *)
+Record hrobs := { ho_has_ttl : bool; ho_has_lm : bool; ho_count : N; ho_unit : N; ho_lm : N; ho_append : N;
+                  ho_cookie : N; ho_data : N }.
+(* one step: wall clock (ns) before and after the call; the operation (an upload carries
+   the in-memory needle's LastModified after CreateNeedleFromRequest and its AppendAtNs
+   after WriteVolumeNeedle, 0 when nothing was appended; the clock fields of HRead /
+   HExpired are placeholders, the model is run at both ends of the bracket); uploads:
+   the real ReadTTL(ttl=) as (count, unit); result; stored record and volume stamp after *)
+Record hstepobs := { hs_t1 : N; hs_t2 : N; hs_op : hop; hs_ttl : N * N; hs_res : hres;
+                     hs_rec : option hrobs; hs_stamp : N }.
+
 Inductive case :=
+| CVolHist (vttl : string) (vcount vunit : N) (t0 : N) (steps : list hstepobs)
 | CSeconds (l : list sobs)
 | CTtl (l : list tobs)
 | CVolume (v : vobs)
@@ -293,8 +306,112 @@ Definition fseq_trig (chunks : list chk) (steps : list fstep) : option N :=
      forallb (fun s => forallb (fun e => seen_data_ok chunks s e || excused s e) (fstep_seen s)) steps
   then Some 0 else None.
 
+(* ---- upload histories on one key ---- *)
+Definition hop_at (clock : N) (o : hop) : hop :=
+  match o with
+  | HRead _ => HRead clock
+  | HExpired _ size limit => HExpired (clock / NS) size limit
+  | _ => o
+  end.
+Definition hres_eqb (a b : hres) : bool :=
+  match a, b with
+  | HAck x, HAck y => Bool.eqb x y
+  | HRefused, HRefused => true
+  | HData None, HData None => true
+  | HData (Some x), HData (Some y) => x =? y
+  | HExp x, HExp y => Bool.eqb x y
+  | HAged, HAged => true
+  | _, _ => false
+  end.
+Definition hrec_obs_eqb (r : hrec) (o : hrobs) : bool :=
+  let n := hr_needle r in
+  Bool.eqb (has_ttl n) (ho_has_ttl o) && Bool.eqb (has_lm n) (ho_has_lm o) &&
+  ttl_eqb (n_ttl n) {| t_count := ho_count o; t_unit := ho_unit o |} &&
+  (last_modified n =? ho_lm o) && (append_at_ns n =? ho_append o) &&
+  (hr_cookie r =? ho_cookie o) && (hr_data r =? ho_data o).
+Definition hstate_matches (st : hstate) (s : hstepobs) : bool :=
+  match h_rec st, hs_rec s with
+  | None, None => true
+  | Some r, Some o => hrec_obs_eqb r o
+  | _, _ => false
+  end && (h_stamp st =? hs_stamp s).
+(* the clocks an appending upload read lie inside the harness's bracket *)
+Definition hclock_ok (s : hstepobs) (model_res : hres) : bool :=
+  match hs_op s, model_res with
+  | HUpload _ ts _ _ parse_s append_ns, HAck false =>
+      (hs_t1 s <=? append_ns) && (append_ns <=? hs_t2 s) &&
+      (if ts =? 0 then (hs_t1 s / NS <=? parse_s) && (parse_s <=? hs_t2 s / NS) else true)
+  | _, _ => true
+  end.
+Fixpoint hist_corr (vttl : string) (st : hstate) (steps : list hstepobs) : bool :=
+  match steps with
+  | [] => true
+  | s :: r =>
+      let '(st1, res1) := hstep vttl st (hop_at (hs_t1 s) (hs_op s)) in
+      let res2 := snd (hstep vttl st (hop_at (hs_t2 s) (hs_op s))) in
+      (hres_eqb res1 (hs_res s) || hres_eqb res2 (hs_res s)) &&
+      hstate_matches st1 s && hclock_ok s res1 && hist_corr vttl st1 r
+  end.
+
+(* the oracle, on the implementation's observations only: the LAST ACKNOWLEDGED upload
+   (moved by the aging steps after it) decides: its content is readable until its
+   acknowledgement + its effective TTL (ttl= of the upload, else the volume's) *)
+Record hlast := { hl_m : N; hl_lo : N; hl_hi : N; hl_data : N; hl_dedup : bool }.
+Definition hist_eff_minutes (vcount vunit : N) (req : string) (t : N * N) : N :=
+  if String.eqb req EmptyString then spec_minutes vcount vunit else spec_minutes (fst t) (snd t).
+Definition hist_next (vcount vunit : N) (notv : bool) (L : option hlast) (s : hstepobs) : option hlast :=
+  match hs_op s, hs_res s with
+  | HUpload req _ _ data _ _, HAck u =>
+      Some {| hl_m := hist_eff_minutes vcount vunit req (hs_ttl s); hl_lo := hs_t1 s; hl_hi := hs_t2 s;
+              hl_data := data; hl_dedup := u && notv |}
+  | HAge a _, _ =>
+      option_map (fun l => {| hl_m := hl_m l; hl_lo := a; hl_hi := a; hl_data := hl_data l; hl_dedup := hl_dedup l |}) L
+  | _, _ => L
+  end.
+Definition hist_step_ok (vm : N) (L : option hlast) (s : hstepobs) : bool :=
+  match hs_op s, hs_res s with
+  | HRead _, HData d =>
+      match L with
+      | None => match d with None => true | Some _ => false end
+      | Some l =>
+          let alive := match d with Some x => x =? hl_data l | None => false end in
+          let dead := match d with None => true | Some _ => false end in
+          if hl_m l =? 0 then alive
+          else if hs_t2 s <? hl_lo l + hl_m l * 60000000000 then alive
+          else if hl_hi l + hl_m l * 60000000000 <=? hs_t1 s then dead
+          else alive || dead
+      end
+  | HExpired _ _ _, HExp b =>
+      (* the volume is not called expired while a blob whose TTL the volume's TTL covers is alive *)
+      match L with
+      | None => negb b
+      | Some l => implb (b && (0 <? hl_m l) && (hl_m l <=? vm)) (hl_lo l + hl_m l * 60000000000 <=? hs_t2 s)
+      end
+  | HUpload _ _ _ _ _ _, HAck _ => true
+  | HUpload _ _ _ _ _ _, HRefused => true
+  | HAge _ _, HAged => true
+  | _, _ => false
+  end.
+(* per step: (oracle holds, the last acknowledged upload was deduplicated in a volume without TTL) *)
+Fixpoint hist_walk (vcount vunit : N) (notv : bool) (L : option hlast) (steps : list hstepobs) : list (bool * bool) :=
+  match steps with
+  | [] => []
+  | s :: r =>
+      (hist_step_ok (spec_minutes vcount vunit) L s, match L with Some l => hl_dedup l | None => false end)
+      :: hist_walk vcount vunit notv (hist_next vcount vunit notv L s) r
+  end.
+
 Definition check (c : case) : outcome :=
   match c with
+  | CVolHist vttl vcount vunit t0 steps =>
+      let w := hist_walk vcount vunit (negb (ttl_volume vttl)) None steps in
+      {| o_corr := ttl_eqb (read_ttl vttl) {| t_count := vcount; t_unit := vunit |} &&
+                   hist_corr vttl {| h_rec := None; h_stamp := t0 |} steps;
+         o_prop := forallb fst w;
+         (* finding 6, per step: every failing step follows a deduplicated acknowledged
+            upload into a volume without TTL *)
+         o_trig := if forallb (fun p => fst p || snd p) w then Some 6 else None;
+         o_nontrivial := existsb (fun s => match hs_res s with HData (Some _) => true | _ => false end) steps |}
   | CSeconds l =>
       {| o_corr := forallb sec_corr l; o_prop := forallb sec_prop l;
          (* per element: every failing value must itself be inside the trigger set *)
